@@ -57,24 +57,35 @@ fn pick_t(sel: u8, raw: u64, moduli: &[u64]) -> u64 {
     t
 }
 
+fn rns_from_raw(logn: u32, ntt: bool, specs: Vec<(u32, u8, u64)>, tsel: u8, traw: u64, raw: Vec<(u8, Vec<u64>)>) -> RnsCase {
+    let moduli = if ntt {
+        let bits: Vec<u32> = specs.iter().map(|s| s.0.max(logn + 2)).collect();
+        let sels: Vec<u8> = specs.iter().map(|s| s.1).collect();
+        ntt_primes_distinct(logn, &bits, &sels)
+    } else {
+        let bits: Vec<u32> = specs.iter().map(|s| s.0).collect();
+        let raws: Vec<u64> = specs.iter().map(|s| s.2).collect();
+        odd_coprime_moduli(&bits, &raws, false)
+    };
+    let t = pick_t(tsel, traw, &moduli);
+    RnsCase { logn, ntt_friendly: ntt, moduli, t, raw }
+}
+
 fn rns_case(tier: Tier) -> BoxedStrategy<RnsCase> {
     let maxk = 8usize;
     let _ = tier;
     (1u32..=3, any::<bool>(), proptest::collection::vec((2u32..=60, any::<u8>(), any::<u64>()), 1..=maxk), any::<u8>(), any::<u64>(),
      proptest::collection::vec((any::<u8>(), proptest::collection::vec(limb(), 10)), 8))
-        .prop_map(|(logn, ntt, specs, tsel, traw, raw)| {
-            let moduli = if ntt {
-                let bits: Vec<u32> = specs.iter().map(|s| s.0.max(logn + 2)).collect();
-                let sels: Vec<u8> = specs.iter().map(|s| s.1).collect();
-                ntt_primes_distinct(logn, &bits, &sels)
-            } else {
-                let bits: Vec<u32> = specs.iter().map(|s| s.0).collect();
-                let raws: Vec<u64> = specs.iter().map(|s| s.2).collect();
-                odd_coprime_moduli(&bits, &raws, false)
-            };
-            let t = pick_t(tsel, traw, &moduli);
-            RnsCase { logn, ntt_friendly: ntt, moduli, t, raw }
-        }).boxed()
+        .prop_map(|(logn, ntt, specs, tsel, traw, raw)| rns_from_raw(logn, ntt, specs, tsel, traw, raw)).boxed()
+}
+/// fuzz decoder (engine E3): the same primitive choices drawn from fuzzer bytes, mapped by `rns_from_raw`
+fn rns_decode(src: &mut crate::fuzz::Src) -> Option<RnsCase> {
+    let logn = src.incl(1, 3) as u32; let ntt = src.bool();
+    let k = src.incl(1, 8) as usize;
+    let specs = (0..k).map(|_| (src.incl(2, 60) as u32, src.u8(), src.u64())).collect();
+    let tsel = src.u8(); let traw = src.u64();
+    let raw = (0..8).map(|_| (src.u8(), (0..10).map(|_| limb_decode(src)).collect())).collect();
+    Some(rns_from_raw(logn, ntt, specs, tsel, traw, raw))
 }
 
 /// map raw material to an integer in [0, bound)
@@ -106,6 +117,8 @@ fn layout(vals: &[Vec<u64>], k: usize) -> Vec<u64> {
     for (j, v) in vals.iter().enumerate() { for i in 0..k { out[i * n + j] = v[i]; } }
     out
 }
+/// an output buffer that was used before: every routine has to overwrite all of it
+fn dirty(len: usize) -> Vec<u64> { (0..len as u64).map(|i| (i + 1).wrapping_mul(0x9E37_79B9_7F4A_7C15) | 1).collect() }
 fn column(data: &[u64], n: usize, k: usize, j: usize) -> Vec<u64> { (0..k).map(|i| data[i * n + j]).collect() }
 
 pub fn rns_oracle(c: &RnsCase) -> Verdict {
@@ -174,7 +187,7 @@ pub fn rns_oracle(c: &RnsCase) -> Verdict {
 
     // fastbconv_m_tilde: output represents |m~ x|_Q + alpha Q with one alpha in [0, k-1] for all output moduli
     let inq = layout(&xs.iter().map(|x| residues(x, &c.moduli)).collect::<Vec<_>>(), k);
-    let mut ext = vec![0u64; n * (nb + 1)];
+    let mut ext = dirty(n * (nb + 1));
     match catch(|| { tool.fastbconv_m_tilde(&inq, &mut ext); }) {
         Err(p) => f.add("C10/fastbconv_m_tilde", format!("panicked: {p} ({ctx})")),
         Ok(()) => for j in 0..n {
@@ -190,7 +203,7 @@ pub fn rns_oracle(c: &RnsCase) -> Verdict {
         let bound = qprod.mul_u64(m_tilde).mul_u64(k as u64 + 1); // the range produced by fastbconv_m_tilde
         let vs: Vec<BigU> = (0..n).map(|j| { let (s, l) = &c.raw[(j + 1) % c.raw.len()]; int_below(s.wrapping_add(3 * j as u8), &l[..], &bound, &c.moduli) }).collect();
         let inp = layout(&vs.iter().map(|v| residues(v, &bskm)).collect::<Vec<_>>(), nb + 1);
-        let mut out = vec![0u64; n * nb];
+        let mut out = dirty(n * nb);
         match catch(|| tool.sm_mrq(&inp, &mut out)) {
             Err(p) => f.add("C10/sm_mrq", format!("panicked: {p} ({ctx})")),
             Ok(()) => for j in 0..n {
@@ -213,7 +226,7 @@ pub fn rns_oracle(c: &RnsCase) -> Verdict {
         let avs: Vec<BigU> = (0..n).map(|j| { let (s, l) = &c.raw[(j + 2) % c.raw.len()]; int_below(s.wrapping_add(5 * j as u8), &l[..], &bound, &c.moduli) }).collect();
         let mut all = c.moduli.clone(); all.extend_from_slice(&bsk);
         let inp = layout(&avs.iter().map(|a| residues(a, &all)).collect::<Vec<_>>(), k + nb);
-        let mut out = vec![0u64; n * nb];
+        let mut out = dirty(n * nb);
         match catch(|| tool.fast_floor(&inp, &mut out)) {
             Err(p) => f.add("C10/fast_floor", format!("panicked: {p} ({ctx})")),
             Ok(()) => for j in 0..n {
@@ -241,7 +254,7 @@ pub fn rns_oracle(c: &RnsCase) -> Verdict {
         }).collect();
         if vals.iter().any(|v| v.neg) { negative_sk = true; }
         let inp = layout(&vals.iter().map(|v| residues_i(v, &bsk)).collect::<Vec<_>>(), nb);
-        let mut out = vec![0u64; n * k];
+        let mut out = dirty(n * k);
         match catch(|| tool.fastbconv_sk(&inp, &mut out)) {
             Err(p) => f.add("C10/fastbconv_sk", format!("panicked: {p} ({ctx})")),
             Ok(()) => for j in 0..n {
@@ -256,7 +269,7 @@ pub fn rns_oracle(c: &RnsCase) -> Verdict {
         let extend = |x: &BigU| -> Result<(Vec<u64>, BigI), String> {
             // broadcast the scalar into every coefficient slot
             let inq = layout(&vec![residues(x, &c.moduli); n], k);
-            let mut e1 = vec![0u64; n * (nb + 1)]; let mut e2 = vec![0u64; n * nb];
+            let mut e1 = dirty(n * (nb + 1)); let mut e2 = dirty(n * nb);
             catch(|| { tool.fastbconv_m_tilde(&inq, &mut e1); tool.sm_mrq(&e1, &mut e2); })?;
             let col = column(&e2, n, nb, 0);
             let v = centered(&crt_compose(&col, &bsk), &bskprod);
@@ -273,7 +286,7 @@ pub fn rns_oracle(c: &RnsCase) -> Verdict {
                 let cb: Vec<u64> = (0..nb).map(|i| rm::mulmod(rm::mulmod(ra[i], rb[i], bsk[i]), c.t % bsk[i], bsk[i])).collect();
                 let mut both = cq.clone(); both.extend_from_slice(&cb);
                 let inp = layout(&vec![both; n], k + nb);
-                let mut fl = vec![0u64; n * nb]; let mut out = vec![0u64; n * k];
+                let mut fl = dirty(n * nb); let mut out = dirty(n * k);
                 match catch(|| { tool.fast_floor(&inp, &mut fl); tool.fastbconv_sk(&fl, &mut out); }) {
                     Err(p) => f.add("C10/bfv_multiply_pipeline", format!("panicked: {p} ({ctx})")),
                     Ok(()) => {
@@ -351,7 +364,7 @@ pub fn rns_oracle(c: &RnsCase) -> Verdict {
         let t = c.t; let tb = BigU::from_u64(t);
         let inq = layout(&xs.iter().map(|x| residues(x, &c.moduli)).collect::<Vec<_>>(), k);
         // scale-and-round: round(t x / Q) mod t whenever frac(t x/Q) is at least 2^-40 away from 1/2
-        let mut out = vec![0u64; n];
+        let mut out = dirty(n);
         match catch(|| tool.decrypt_scale_and_round(&inq, &mut out)) {
             Err(p) => f.add("C10/decrypt_scale_and_round", format!("panicked: {p} ({ctx})")),
             Ok(()) => for j in 0..n {
@@ -368,7 +381,7 @@ pub fn rns_oracle(c: &RnsCase) -> Verdict {
             }
         }
         // mod-t decryption: centered x mod t whenever | x/Q - 1/2 | > 2^-30
-        let mut out = vec![0u64; n];
+        let mut out = dirty(n);
         match catch(|| tool.decrypt_mod_t(&inq, &mut out)) {
             Err(p) => f.add("C10/decrypt_mod_t", format!("panicked: {p} ({ctx})")),
             Ok(()) => for j in 0..n {
@@ -430,14 +443,14 @@ fn small_oracle(c: &SmallBase) -> Verdict {
             let inp: Vec<u64> = c.moduli.iter().flat_map(|m| vec![x % m, x2 % m]).collect();
             let mut d = inp.clone(); tool.divide_and_round_q_last_inplace(&mut d);
             for (jj, xv) in [x, x2].iter().enumerate() { for i in 0..k - 1 { check_eq!(d[i * 2 + jj], ((xv + ql / 2) / ql) % c.moduli[i], "divide_and_round x={xv} base {:?}", c.moduli); } }
-            let mut out = vec![0u64; 2]; tool.decrypt_scale_and_round(&inp, &mut out);
+            let mut out = dirty(2); tool.decrypt_scale_and_round(&inp, &mut out);
             for (jj, xv) in [x, x2].iter().enumerate() {
                 let num = (*xv as u128) * t as u128; let (fl, r) = (num / q as u128, num % q as u128);
                 if 2 * r == q as u128 { continue; }
                 let want = ((if 2 * r > q as u128 { fl + 1 } else { fl }) % t as u128) as u64;
                 check_eq!(out[jj], want, "decrypt_scale_and_round x={xv} t={t} base {:?}", c.moduli);
             }
-            let mut out = vec![0u64; 2]; tool.decrypt_mod_t(&inp, &mut out);
+            let mut out = dirty(2); tool.decrypt_mod_t(&inp, &mut out);
             for (jj, xv) in [x, x2].iter().enumerate() {
                 if 2 * xv == q { continue; }
                 let want = if 2 * xv > q { (t - (q - xv) % t) % t } else { xv % t };
@@ -467,7 +480,8 @@ pub fn def() -> PropertyDef {
             "scale-and-round compared only when frac(t x/Q) is at least 2^-40 away from 1/2, mod-t decryption when |x/Q - 1/2| > 2^-30 (stated noise bound)",
         ],
         subs: vec![
-            Sub::prop("rns_routines", 400_000, 2_000_000, 0.3, rns_case, rns_oracle),
+            Sub::prop("rns_routines", 400_000, 2_000_000, 0.3, rns_case, rns_oracle).fuzzable(rns_decode, rns_oracle),
+            Sub::corpus("fuzz_corpus_rns", "c10_rns", rns_decode, rns_oracle),
             Sub::enumerate("small_bases_exhaustive", small_bases, small_oracle),
         ],
     }
